@@ -96,6 +96,9 @@ pub fn gen_program(r: &mut Rng, o: &ProgOpts, st: &PushState) -> Vec<Item> {
     (0..n).map(|_| gen_prog_item(r, 3, o)).collect()
 }
 
+pub fn state_within_envelope(s: &PushState) -> bool {
+    within_envelope(s)
+}
 fn within_envelope(s: &PushState) -> bool {
     // C01 is stated inside a resource envelope: operand-controlled sizes and total code size bounded
     if let Some(Item::InstructionMeta { name }) = s.exec_stack.get(0) {
